@@ -229,6 +229,10 @@ pub fn validate_signature(sig: &str) -> Result<()> {
                         return Err(Error::InvalidSignature(signature::Error::InvalidSignature));
                     }
                     if sig[pos + counter] == b')' {
+                        if counter == 1 {
+                            // empty structs are not allowed
+                            return Err(Error::InvalidSignature(signature::Error::EmptyStruct));
+                        }
                         counter += 1;
                         break;
                     }
